@@ -99,7 +99,7 @@ func c14Scenarios(tier string) []*core.Scenario {
 				Judge: c14Judge(2),
 			}
 		}})
-	if tier == "thorough" {
+	if true { // both tiers
 		var sub []string
 		for i := 0; i < len(pool); i += len(pool)/20 + 1 {
 			sub = append(sub, pool[i])
